@@ -2,6 +2,7 @@ package qos
 
 import (
 	"context"
+	"encoding/binary"
 	"fmt"
 	"net"
 	"os"
@@ -319,8 +320,11 @@ func (m *Manager) GetSubscriberCount() int {
 	return len(m.subscribers)
 }
 
-// ipToKey converts an IPv4 address to a uint32 key (network byte order)
+// ipToKey converts an IPv4 address to the uint32 map key. The TC programs look
+// the bucket up with the address as it stands in the packet (ip->daddr /
+// ip->saddr, network byte order), and the map key is written in host byte
+// order, so the key must be the value whose in-memory bytes are a.b.c.d.
 func ipToKey(ip net.IP) uint32 {
 	ip4 := ip.To4()
-	return uint32(ip4[0])<<24 | uint32(ip4[1])<<16 | uint32(ip4[2])<<8 | uint32(ip4[3])
+	return binary.NativeEndian.Uint32(ip4)
 }
